@@ -1,4 +1,4 @@
 SPECIFICATION GSpec
-CONSTANT Matrix = FALSE
+CONSTANT Matrix = TRUE
 ACTION_CONSTRAINT Emit
 CHECK_DEADLOCK FALSE
